@@ -33,6 +33,10 @@ def r1_conversion(ctx, chk, rule="C17.1"):
     r = sx.ret
     p = ("v", f.params[0])
     prod = (mk_mul(p, C(100)), mk_mul(p, C(100.0)))
+    # rounding the probability to two decimals first does not help: round(0.29, 2) is 0.29 and 0.29*100 is 28.999999999999996
+    for nd in (C(2), C(3), C(4)):
+        rp = ("call", "round", (p, nd), ())
+        prod += (mk_mul(rp, C(100)), mk_mul(rp, C(100.0)))
     where = f.where()
 
     def rounded(t):
@@ -386,6 +390,8 @@ def r3_matrix_max(ctx, chk, rule="C17.4"):
 
 
 def run(ctx, chk):
+    from . import C15 as _C15
+    _C15.parse_args_source(ctx, chk, "C17.2")        # the name states the parameters of this invocation only if this invocation's arguments are parsed
     r3_matrix_max(ctx, chk)
     r1_conversion(ctx, chk)
     r2_templates(ctx, chk)
